@@ -97,6 +97,11 @@ def run(ck, F, E):
     if ev is not None:
         mpc = ev.calls_to("Interpreter::maybe_process_command")
         rns = ev.calls_to("Interpreter::run_next_statement")
+        if not rns:
+            # the step sits in a private helper (`run_immediate_line`) that evaluate_impl calls: judge the helper's call site
+            rns = [c for c in ev.calls() if c.callee in F.bodies and c.callee.startswith("abasic_core::interpreter::Interpreter::") and
+                   c.callee != ev.path and len(F.bodies[c.callee].calls_to("Interpreter::run_next_statement")) == 1 and
+                   not F.bodies[c.callee].natural_loops()]
         ok = len(mpc) == 1 and len(rns) == 1
         if ok:
             # the direct call site is reachable only through the `false` arm of the flag
